@@ -15,6 +15,9 @@ def check(ctx):
     tr = os.path.join(ctx.scratch, "c11_live.ndjson")
     rc, err, events = lc.run_live(ctx, ["live-c11", 16 if thorough else 6, 60 if thorough else 20, tr], timeout=1800)
     lc.crash_check(ctx, rc, err, "live-c11")
+    for e in events:
+        if e["ev"] == "cmd_stranded":
+            ctx.violation("caller-stranded", "SendActiveMessage(k=%s) had not returned 4 s after its time-out" % e.get("k"), {"kind": "live", "event": e})
     events.sort(key=lambda e: e["g"])
     tr2 = os.path.join(ctx.scratch, "c11_trace.ndjson")
     with open(tr2, "w") as f:
